@@ -182,6 +182,7 @@ func (e *Variable) Assign(newVal reflect.Value, dataContext IDataContext, memory
 		if err == nil {
 			dataContext.IncrementVariableChangeCount()
 			memory.ResetVariable(e)
+			e.resetSelectorContainers(memory)
 		}
 
 		return err
@@ -201,6 +202,7 @@ func (e *Variable) Assign(newVal reflect.Value, dataContext IDataContext, memory
 			err := e.Variable.ValueNode.SetArrayValueAt(int(e.ArrayMapSelector.Value.Int()), newVal)
 			if err == nil {
 				memory.ResetVariable(e)
+				e.resetSelectorContainers(memory)
 			}
 
 			return err
@@ -209,6 +211,7 @@ func (e *Variable) Assign(newVal reflect.Value, dataContext IDataContext, memory
 			err := e.Variable.ValueNode.SetMapValueAt(e.ArrayMapSelector.Value, newVal)
 			if err == nil {
 				memory.ResetVariable(e)
+				e.resetSelectorContainers(memory)
 			}
 
 			return err
@@ -216,6 +219,17 @@ func (e *Variable) Assign(newVal reflect.Value, dataContext IDataContext, memory
 	}
 
 	return fmt.Errorf("this code part should not be reached")
+}
+
+// resetSelectorContainers resets everything that depends on a slice or map this variable selects
+// into: the written element may also be read through another selector expression (Arr[0] vs
+// Arr[K]) or through the container itself (Len()), which a reset of this variable alone misses.
+func (e *Variable) resetSelectorContainers(memory *WorkingMemory) {
+	for v := e; v != nil; v = v.Variable {
+		if v.ArrayMapSelector != nil && v.Variable != nil {
+			memory.ResetVariable(v.Variable)
+		}
+	}
 }
 
 // Evaluate will evaluate this AST graph for when scope evaluation
